@@ -85,6 +85,8 @@ fn pass_2_internal(segment: &Segment, common_context: &CommonContext) -> Result<
     let mut cur_address = segment.address;
 
     for (line, item) in segment.items.iter() {
+        #[cfg(avra_rs_verif)]
+        crate::verif_hook::yield_point(9);
         common_context.set_special("pc".to_string(), Expr::Const(cur_address as i64));
         match item {
             Item::Instruction(op, op_args) => {
